@@ -62,6 +62,7 @@ impl Prop for C06 {
         let spec = ParamSpec::plain(c.method);
         let (fa, ia, ima) = spec.angles();
         let k = spec.school_k();
+        prime(&c.site, &spec, c.date, None, prime_selector(&c.site, c.date));
         let times = compute(&c.site, &spec, c.date, None);
         let (lat, gmt) = (c.site.lat.0, c.site.gmt.0);
         if !has_all_keys(&times) {
